@@ -177,22 +177,27 @@ Definition exs_history : list sevent :=
     exs_ev 1003 (exs_msg 7 0 1 []) NoAddress;                                        (* RELEASE: not answered *)
     exs_ev 1004 (exs_msg 1 0 2 [(50, [192; 0; 2; 77])]) (Granted 3221226062 300 NewAddress) ].
 
+Definition exs_b1 : list N := encode (exs_msg 1 32768 1 []).
+Definition exs_a1 : answer := Granted 3221226061 300 NewAddress.
+(* closed boolean statements, decided by computation *)
 Example S_example_step :
-  exists st' f m r mac,
-    server_step exs_cfg ([], []) 1000 1000 exs_env (encode (exs_msg 1 32768 1 [])) (Granted 3221226061 300 NewAddress)
-      = Ok (st', Some f) /\
-    decode (encode (exs_msg 1 32768 1 [])) = Ok m /\
-    reply_of exs_cfg ([], []) 1000 exs_env (encode (exs_msg 1 32768 1 [])) (Granted 3221226061 300 NewAddress) = Some r /\
-    mac = takeN 6 (d_chaddr m) /\
-    valid_frame (frame_args exs_env m r mac) f = true /\
-    u_dst_ip (frame_args exs_env m r mac) = [255; 255; 255; 255] /\
-    wf_dhcp r = true /\ allowed exs_g (request_of exs_env m) (d_yiaddr r) = true /\
-    lenN f = 324.
-Proof. do 5 eexists. vm_compute. repeat split. Qed.
+  match server_step exs_cfg ([], []) 1000 1000 exs_env exs_b1 exs_a1,
+        decode exs_b1, reply_of exs_cfg ([], []) 1000 exs_env exs_b1 exs_a1 with
+  | Ok (st', Some f), Ok m, Some r =>
+      let mac := takeN 6 (d_chaddr m) in
+      valid_frame (frame_args exs_env m r mac) f
+      && bytes_eqb (u_dst_ip (frame_args exs_env m r mac)) [255; 255; 255; 255]
+      && wf_dhcp r && allowed exs_g (request_of exs_env m) (d_yiaddr r)
+      && (lenN f =? 314) && (lenN (fst st') =? 1) && bytes_eqb (snd st') [3221225985]
+  | _, _, _ => false
+  end = true.
+Proof. vm_compute. reflexivity. Qed.
 
 Example S_example_history :
   wf_times 86400 0 exs_history = true /\
-  exists st' fs, server_run exs_cfg ([], []) exs_history = Some (st', fs) /\
-                 length fs = 3%nat /\ length (fst st') = 2%nat /\
-                 length (pool_history exs_cfg ([], []) exs_history) = 3%nat.
-Proof. split. reflexivity. do 2 eexists. vm_compute. repeat split. Qed.
+  match server_run exs_cfg ([], []) exs_history with
+  | Some (st', fs) => (lenN fs =? 3) && (lenN (fst st') =? 2)
+                      && (lenN (pool_history exs_cfg ([], []) exs_history) =? 3)
+  | None => false
+  end = true.
+Proof. split; vm_compute; reflexivity. Qed.
